@@ -264,6 +264,69 @@ def zip_operands(t):
     return [t]
 
 
+def row_elem_canon(ctx, b, an):
+    """One view of the per-pixel accesses of a row proc for both spellings of the loop: a function that rewrites a term
+    so that the current element of slice parameter k reads ('elem', k) --
+      zip form:   *<path of the Some payload of next(zip(..))>, the path decoded against the zip tree;
+      index form: p[i] with i exactly the variable of a range/counter loop (that the loop is bounded by the shortest
+                  slice is R02.5's and the census's obligation, not this function's)."""
+    zips = {}
+
+    def zip_tree(t):
+        t = strip_all(t)
+        if is_call(t, 'IntoIterator::into_iter') and len(t[2]) == 1:
+            return zip_tree(t[2][0])
+        if is_call(t, 'Iterator::zip') and len(t[2]) == 2:
+            return ('zip', zip_tree(t[2][0]), zip_tree(t[2][1]))
+        if is_call(t, 'iter_mut', '::iter') and len(t[2]) == 1:
+            t = strip_all(t[2][0])
+        while t[0] in ('deref', 'ref'):
+            t = strip_all(t[1])
+        return ('leaf', t[1] if t[0] == 'param' else None)
+
+    def tree_of(nxt):
+        k0 = nosite(nxt)
+        if k0 not in zips:
+            D = Deps(an)
+            D.closure(nxt[2][0])
+            zs = [x for x in D.visited if is_call(x, 'IntoIterator::into_iter')]
+            zips[k0] = zip_tree(zs[-1]) if zs else None
+        return zips[k0]
+
+    def param_of(base):
+        base = strip_all(base)
+        while base[0] in ('deref', 'ref'):
+            base = strip_all(base[1])
+        return base[1] if base[0] == 'param' else None
+
+    def f(t):
+        if t[0] == 'deref':
+            path = []
+            x = t[1]
+            while x[0] == 'field' and x[3] == '(tuple)':
+                path.append(x[2])
+                x = x[1]
+            if x[0] == 'field' and x[4] == 'Some' and is_call(x[1], 'Iterator::next'):
+                tr = tree_of(x[1])
+                for step in reversed(path):
+                    if tr is None or tr[0] != 'zip':
+                        tr = None
+                        break
+                    tr = tr[1] if step == '0' else tr[2]
+                if tr is not None and tr[0] == 'leaf' and tr[1] is not None:
+                    return ('elem', tr[1])
+        if t[0] == 'index':
+            k2 = param_of(t[1])
+            if k2 is not None and shared.index_loop_bounds(ctx, b, an, t[2]):
+                positions.add(nosite(strip_casts(t[2], ('IntToInt',))))
+                return ('elem', k2)
+        return None
+    positions = set()
+    canon = lambda t: trewrite(t, f)
+    canon.positions = positions       # the distinct index terms met so far (index form): one pixel position <=> at most one
+    return canon
+
+
 def r02_5(ctx):
     """row procs write dst only through dst.iter_mut() zipped with all other slices"""
     R = 'R02.5'
@@ -282,20 +345,8 @@ def r02_5(ctx):
         for addr, val, pt in st:
             # alternative spelling: dst[i] for i in 0..min(len of every slice)
             if addr[0] == 'index' and strip_all(addr[1]) in (('param', dst_p), ('deref', ('param', dst_p))):
-                bounds = []
-                i_t = strip_casts(addr[2], ('IntToInt',))
-                if i_t[0] == 'field' and i_t[4] == 'Some' and is_call(i_t[1], 'Iterator::next'):
-                    D0 = Deps(an)
-                    D0.closure(i_t[1][2][0])
-                    bounds = [dict(x[4]) for x in D0.visited if x[0] == 'agg' and x[2] and x[2].endswith('ops::Range')]
-                    bounds = [(f['start'], f['end']) for f in bounds]
-                else:
-                    bounds = [(cl['init'], cl['bound']) for cl in counter_loops(an, b) if cl['var'] == nosite(i_t)]
-                def min_leaves(t):
-                    t = strip_all(t)
-                    if t[0] == 'call' and isinstance(t[1], str) and t[1].endswith('Ord::min') and len(t[2]) == 2:
-                        return min_leaves(t[2][0]) + min_leaves(t[2][1])
-                    return [t]
+                bounds = shared.index_loop_bounds(ctx, b, an, addr[2])
+                min_leaves = lambda t: shared.min_leaves(ctx, b, an, t)
                 good = False
                 for st0, en in bounds:
                     ls = min_leaves(en)
@@ -382,47 +433,7 @@ def classify_index(b, p, loopvars):
     return res
 
 
-def counter_loops(an, b):
-    """loops written with an explicit counter — `let mut i = S; while i < E { ..; i += 1 }` or
-    `loop { if i >= E { break } ..; i += 1 }`: i has exactly two definitions reaching the test (the initial value
-    outside the loop, `i + 1` inside it), the increment lies on every cycle, and the loop is left exactly when `i < E`
-    fails.  [{var: the phi term of i as seen inside the loop, init: S, bound: E, header, blocks}]"""
-    out = []
-    loops = an.cfg.loops()
-    for si, t in b.terminators('switch'):
-        if si not in an.cfg.reach or t.get('ty') != 'bool':
-            continue
-        c = an.term_at(si, len(b.blocks[si]['st']), t['o'])
-        neg = False
-        while c[0] == 'un' and c[1] == 'Not':
-            c, neg = c[2], not neg
-        if c[0] != 'bin' or c[1] not in ('Lt', 'Ge', 'Gt', 'Le'):
-            continue
-        lhs, rhs, op = c[2], c[3], c[1]
-        if op in ('Gt', 'Le'):                    # E > i  /  E <= i
-            lhs, rhs = rhs, lhs
-            op = 'Lt' if op == 'Gt' else 'Ge'
-        stay_when_true = (op == 'Lt') != neg      # the branch taken when i < E
-        i_t = strip_casts(lhs, ('IntToInt',))
-        if i_t[0] != 'phi':
-            continue
-        ds = [an.defs[k] for k in i_t[2]]
-        if len(ds) != 2 or any(d.partial or d.kind != 'assign' for d in ds):
-            continue
-        false_t = [tt for v, tt in t['targets'] if v == '0']
-        if not false_t:
-            continue
-        stay, leave = (t['otherwise'], false_t[0]) if stay_when_true else (false_t[0], t['otherwise'])
-        for inc in ds:
-            init = [d for d in ds if d is not inc][0]
-            pinc = poly(an.def_term(inc))
-            if pinc != Poly.leaf(nosite(i_t)) + Poly.const(1) and pinc != poly(i_t) + Poly.const(1):
-                continue
-            hs = [h for h, bl in loops.items() if si in bl and inc.bb in bl and stay in bl and leave not in bl and init.bb not in bl]
-            if not hs or an.cfg.cycle_through(hs[0], loops[hs[0]], [inc.bb]):
-                continue
-            out.append({'var': nosite(i_t), 'init': an.def_term(init), 'bound': rhs, 'header': hs[0], 'blocks': loops[hs[0]]})
-    return out
+counter_loops = shared.counter_loops
 
 
 def loop_vars(an, b, count):
@@ -585,30 +596,27 @@ def r02_7(ctx):
         b = ctx.body(q, R)
         an = ctx.an(b)
         key = short(q)
+        canon = row_elem_canon(ctx, b, an)
+        dst_e, src_e = ('elem', b.argc), ('elem', 1)
         for addr, val, pt, kind in an.stores:
             if kind != 'assign':
                 continue
             n += 1
-            # coverage reads: derefs of the zipped u8 elements (params 2.. except src and dst)
-            covs = set()
-            for x in subterms(val):
-                if x[0] == 'deref' and x[1][0] == 'field':
-                    covs.add(x)
-            old = ('deref', strip_all(addr)[1]) if addr[0] == 'deref' else addr
+            # coverage reads: the current elements of the u8 slices (every parameter but src and dst)
+            cval = canon(val)
+            covs = set(x for x in subterms(cval) if x[0] == 'elem' and x not in (dst_e, src_e))
             gs = normalized_guards(ctx, b, pt[0])
             guarded = set()
             for op, a, b2, si in gs:
                 if op in ('Ne', 'Gt') and const_val(b2) == 0:
-                    for x in subterms(a):
+                    for x in subterms(canon(a)):
                         if x in covs:
                             guarded.add(x)
-            v = strip_all(val)
+            v = strip_all(cval)
             ok = False
-            why = ''
-            if v[0] == 'call' and isinstance(v[1], str) and v[1] in ZERO_ID:
+            if v[0] == 'call' and isinstance(v[1], str) and v[1] in ZERO_ID and canon(strip_all(addr)) == dst_e:
                 idpos, wpos = ZERO_ID[v[1]]
-                first_is_old = strip_all(v[2][idpos]) == addr or strip_all(v[2][idpos]) == strip_all(addr)
-                u8covs = set(c for c in covs if c != strip_all(addr) and not any(c == strip_all(a) for a in v[2][:2]) )
+                first_is_old = strip_all(v[2][idpos]) == dst_e
                 weights = [v[2][i] for i in wpos]
                 # every coverage byte that feeds a weight must either be guarded or flow zero-preservingly
                 cov_in_w = set()
@@ -618,9 +626,8 @@ def r02_7(ctx):
                             cov_in_w.add(x)
                 zp = all(zero_preserving(w, cov_in_w) for w in weights)
                 ok = first_is_old and (zp or cov_in_w <= guarded) and bool(cov_in_w)
-                why = 'weights %s' % [fmt(b, w) for w in weights]
             ctx.check(ok, R, key + '|zero coverage is identity', b.loc(), 'zero coverage keeps the old pixel',
-                      'with a coverage byte of 0 the new pixel is %s, which is not the old pixel: the weight is not zero at zero coverage (alpha_to_alpha256(0) = 1) and no `!= 0` guard skips the write' % fmt(b, v))
+                      'with a coverage byte of 0 the new pixel is %s, which is not the old pixel: the weight is not zero at zero coverage (alpha_to_alpha256(0) = 1) and no `!= 0` guard skips the write' % fmt(b, strip_all(val)))
     ctx.floor(R, 'coverage-weighted destination writes', n, 4)
 
 
@@ -832,38 +839,34 @@ def r03_4(ctx):
         b = ctx.body(q, R)
         an = ctx.an(b)
         key = short(q)
+        canon = row_elem_canon(ctx, b, an)
+        dst_e, src_e = ('elem', b.argc), ('elem', 1)
         for addr, val, pt, kind in an.stores:
             if kind != 'assign':
                 continue
             n += 1
-            old = strip_all(addr)
-            v = strip_all(val)
+            old = canon(strip_all(addr))
+            v = strip_all(canon(val))
             def is_blend(t):
+                # T::blend(source element, old destination element) of the same pixel
                 t = strip_all(t)
-                if not (is_call(t, 'blend::Blend::blend') and strip_all(t[2][1]) == old):
-                    return False
-                a0 = strip_all(t[2][0])
-                if t[2][0][0] == 'deref' and a0 != old:
-                    return True          # the source element of the same zipped tuple
-                # or src[i] next to dst[i]: same index term, the base is the source parameter
-                return (a0[0] == 'index' and old[0] == 'index' and nosite(a0[2]) == nosite(old[2]) and strip_all(a0[1]) != strip_all(old[1])
-                        and strip_all(a0[1]) in (('param', 1), ('deref', ('param', 1))))
+                return is_call(t, 'blend::Blend::blend') and strip_all(t[2][1]) == dst_e and strip_all(t[2][0]) == src_e
             if q.endswith('blend_row'):
-                ok = is_blend(v)
-                ctx.check(ok, R, key + '|roles', b.loc(), '*dst = T::blend(*src, *dst)', 'blend_row stores %s, expected T::blend(*src, *dst)' % fmt(b, v))
+                ok = old == dst_e and is_blend(v) and len(canon.positions) <= 1
+                ctx.check(ok, R, key + '|roles', b.loc(), '*dst = T::blend(*src, *dst)', 'blend_row stores %s, expected T::blend(*src, *dst)' % fmt(b, strip_all(val)))
                 continue
-            ok = v[0] == 'call' and isinstance(v[1], str) and v[1] in ZERO_ID and strip_all(v[2][0]) == old and is_blend(v[2][1])
+            ok = old == dst_e and v[0] == 'call' and isinstance(v[1], str) and v[1] in ZERO_ID and strip_all(v[2][0]) == dst_e and is_blend(v[2][1]) and len(canon.positions) <= 1
             ctx.check(ok, R, key + '|roles', b.loc(), '*dst = interp(*dst, T::blend(*src, *dst), coverage...)',
-                      'the row proc stores %s: expected the interpolation from the old pixel (first) to T::blend(source, old pixel) (second), all read from the same zipped element' % fmt(b, v))
+                      'the row proc stores %s: expected the interpolation from the old pixel (first) to T::blend(source, old pixel) (second), all read from the same pixel position' % fmt(b, strip_all(val)))
             if ok:
-                # which slice feeds which weight: mask then clip
+                # which slice feeds which weight: the coverage bytes of this pixel only
                 ws = [strip_casts(w, ('IntToInt',)) for w in v[2][2:]]
                 flat = []
                 for w in ws:
                     for x in subterms(w):
-                        if x[0] == 'deref' and x[1][0] == 'field':
+                        if x[0] == 'elem':
                             flat.append(x)
-                ctx.check(len(set(flat)) >= len(ws) and old not in flat, R, key + '|weights', b.loc(), 'weights are functions of the zipped coverage bytes only', 'weights are %s' % [fmt(b, w) for w in ws])
+                ctx.check(len(set(flat)) >= len(ws) and dst_e not in flat and src_e not in flat, R, key + '|weights', b.loc(), 'weights are functions of the coverage bytes of this pixel only', 'weights are %s' % [fmt(b, w) for w in ws])
     ctx.floor(R, 'row proc stores', n, 3)
     impls = blitter_impls(ctx, R)
     for name in SRC_OVER_BLITTERS:
@@ -1446,13 +1449,14 @@ def r03_8(ctx):
         b = ctx.body(q, R)
         an = ctx.an(b)
         key = short(q)
+        canon = row_elem_canon(ctx, b, an)
         for addr, val, pt, kind in an.stores:
             if kind != 'assign':
                 continue
             n += 1
-            v = strip_all(val)
+            v = strip_all(canon(val))
             ok = False
-            why = fmt(b, v)[:160]
+            why = fmt(b, strip_all(val))[:160]
             if is_call(v, 'sw_composite::lerp') and len(v[2]) == 3:
                 w = strip_casts(v[2][2], ('IntToInt',))
                 # exact forms: alpha_to_alpha256(c) with c a coverage byte, or a product of coverages normalised by muldiv255
@@ -1460,7 +1464,7 @@ def r03_8(ctx):
                     inner = strip_casts(w[2][0], ('IntToInt',))
                     def cov_or_product(t):
                         t = strip_casts(t, ('IntToInt',))
-                        if t[0] == 'deref':
+                        if t[0] == 'elem' and t[1] not in (1, b.argc):
                             return True
                         if is_call(t, 'sw_composite::muldiv255'):
                             return all(cov_or_product(a) for a in t[2])
